@@ -165,6 +165,11 @@ type State struct {
 	// end-of-input check allocation-free once the state is warm.
 	eoiMatch uint8
 
+	// overLimit has bit c set when the transition on byte class c was found to
+	// exceed the determinization limit: the next search that reaches it gives
+	// up at once instead of building (and throwing away) the successor again.
+	overLimit [4]uint64
+
 	// wbMatch memoizes DFA.checkWordBoundaryMatch per class of the next byte
 	// (index 0 = non-word byte, 1 = word byte), same encoding as eoiMatch.
 	wbMatch [2]uint8
